@@ -265,7 +265,7 @@ impl Render {
             }
             Leaf::Str { s, ty } => if *ty == 0 { ("&'static str".into(), lit(s)) } else { ("String".into(), format!("String::from({})", lit(s))) },
             Leaf::Enum { ra, vs, i } => {
-                let name = self.fresh("E");
+                let name = self.fresh("MqE");
                 let mut attrs = vec!["value(string)".to_string()];
                 if *ra != 0 { attrs.push(format!("rename_all = {}", lit(STYLE_ATTR[*ra as usize]))); }
                 let mut body = String::new();
@@ -278,7 +278,7 @@ impl Render {
             }
             Leaf::Val { unit, inner, nign, named } => {
                 let (ity, iex) = self.leaf(inner);
-                let name = self.fresh("V");
+                let name = self.fresh("MqV");
                 let sg = leaf_can_group(inner);
                 let attr = if sg { "value, sample_group" } else { "value" };
                 let uattr = match unit { Some(u) => format!("#[metrics(unit = {})] ", UNITS[*u as usize].0), None => String::new() };
@@ -378,14 +378,14 @@ impl Render {
                     write!(body, "    {decl},\n").unwrap();
                     ex.push(e);
                 }
-                let name = self.fresh("T");
+                let name = self.fresh("MqT");
                 write!(self.defs, "{}\nstruct {name} {{\n{body}}}\n", Self::container_attr(*ra, pfx, &None, *mode)).unwrap();
                 (name.clone(), format!("{name} {{ {} }}", ex.join(", ")))
             }
             Def::Enum { ra, pfx, tag, vs, chosen, mode } => {
                 let mut body = String::new();
                 let mut chosen_ex = String::new();
-                let name = self.fresh("T");
+                let name = self.fresh("MqT");
                 for (vi, v) in vs.iter().enumerate() {
                     if let Some(n) = &v.name { write!(body, "    #[metrics(name = {})]\n", lit(n)).unwrap(); }
                     match &v.d {
@@ -431,7 +431,7 @@ impl Render {
     fn cstr(&mut self, c: &CStr) -> String {
         match c {
             CStr::Leaf(s) => {
-                let name = self.fresh("L");
+                let name = self.fresh("MqL");
                 write!(self.defs, "struct {name};\nimpl ConstStr for {name} {{ const VAL: &'static str = {}; }}\n", lit(s)).unwrap();
                 name
             }
@@ -471,6 +471,7 @@ impl Case {
 
 const PRELUDE: &str = r#"
 #![allow(warnings)]
+#![allow(bindings_with_variant_name)]
 use metrique::unit_of_work::metrics;
 use metrique::{CloseValue, RootEntry};
 use metrique::concat::{Concatenated, ConstStr, const_str_value};
